@@ -445,10 +445,10 @@ def horizonsValidB (S A O : Nat) : Nat → List (VList D) → Bool
   | _, [] => true
   | prevLen, l :: r => !l.isEmpty && l.all (entryValidB S A O prevLen) && horizonsValidB S A O l.length r
 
-def ppolValidB [BEq D] (io : DblIO D) (S A O : Nat) (vf : VF D) : Bool :=
+def ppolValidB [DecidableEq D] (io : DblIO D) (S A O : Nat) (vf : VF D) : Bool :=
   match vf with
   | [] => false
-  | h0 :: r => h0 == [nilEntry io S] && horizonsValidB S A O 1 r
+  | h0 :: r => decide (h0 = [nilEntry io S]) && horizonsValidB S A O 1 r
 
 /-! ### the last statement of every `operator>>`: assign the destination only after a complete, validated read -/
 
